@@ -52,6 +52,9 @@ func runC01(p *Prog, r *Report) {
 	if want("C01.10") {
 		ruleBaseLevel(p, r, "C01.10")
 	}
+	if want("C01.16") {
+		ruleOverlapResultOwned(p, r, "C01.16")
+	}
 	if want("C01.15") {
 		ruleSkipListSearch(p, r, "C01.15")
 	}
